@@ -14,6 +14,7 @@
 (* A state st = [sc, log, fuel, fns, ds, open]:                            *)
 (*   sc   heap of scopes [par, vars]      log  probe effects, in order     *)
 (*   fns  closures [fn, sc]               ds   stack of defer lists        *)
+(*   ext  names the host's external lookup resolves (outermost scope)      *)
 (*   open set when the run passed a point the property statements leave    *)
 (*        open (then only the laws, not the values, are asserted)          *)
 (* Dev = names of recorded deviations of the code from the intended design *)
@@ -81,7 +82,7 @@ Put(f, n, v) == [m \in DOMAIN f \cup {n} |-> IF m = n THEN v ELSE f[m]]
 DefineIn(st, s, n, v) == [st EXCEPT !.sc[s].vars = Put(@, n, v)]
 
 RECURSIVE Lookup(_, _, _), Nearest(_, _, _)
-Lookup(st, s, n) == IF s = 0 THEN NoneV
+Lookup(st, s, n) == IF s = 0 THEN (IF n \in st.ext THEN IntV(99) ELSE NoneV)     \* the host's external lookup: asked after the outermost table
                     ELSE IF n \in DOMAIN st.sc[s].vars THEN st.sc[s].vars[n]
                     ELSE Lookup(st, st.sc[s].par, n)
 Nearest(st, s, n) == IF s = 0 THEN 0
@@ -629,9 +630,10 @@ Exec(n, s, st) ==
 
 ----------------------------------------------------------------------------
 (* a whole run: top-level scope with the host probes, top-level defer list *)
-InitState(fuel) ==
-  [sc |-> <<[par |-> 0, vars |-> [n \in {"p", "pv", "pn", "pa", "pp", "ch", "pe"} |-> HostV(n)]]>>,
+InitStateX(fuel, ext) ==
+  [ext |-> ext, sc |-> <<[par |-> 0, vars |-> [n \in {"p", "pv", "pn", "pa", "pp", "ch", "pe"} |-> HostV(n)]]>>,
    log |-> <<>>, fuel |-> fuel, fns |-> <<>>, ds |-> <<<<>>>>, open |-> FALSE]
+InitState(fuel) == InitStateX(fuel, {})
 
 \* result projection: class of the outcome, value, probe log, top-level bindings
 RECURSIVE ProjV(_)
@@ -639,8 +641,10 @@ ProjV(v) == IF v.t \in {"list", "map"} THEN [t |-> v.t, i |-> 0, s |-> "", l |->
             ELSE IF v.t \in {"func", "mod", "host"} THEN [t |-> v.t, i |-> 0, s |-> "", l |-> <<>>]
             ELSE v
 
-Run(prog, fuel) ==
-  LET st0 == InitState(fuel)
+\* ext: the names an external lookup installed by the host on the outermost scope resolves (each to the integer 99).  A name the script
+\* binds anywhere on the way out wins; only a name no enclosing scope binds reaches the lookup.
+RunX(prog, fuel, ext) ==
+  LET st0 == InitStateX(fuel, ext)
       b == ExecList(prog, 1, 1, st0) IN
   IF b.o = "fuel" THEN [cls |-> "fuel", v |-> NilV, log |-> <<>>, top |-> <<>>, open |-> TRUE]
   ELSE LET dl == b.st.ds[1]
@@ -652,4 +656,5 @@ Run(prog, fuel) ==
              log |-> [j \in 1..Len(d.st.log) |-> ProjV(d.st.log[j])],
              top |-> [n \in names |-> ProjV(d.st.sc[1].vars[n])],
              open |-> d.st.open]
+Run(prog, fuel) == RunX(prog, fuel, {})
 =============================================================================
